@@ -58,6 +58,26 @@ CLAIMED["C05"] = dict(
          "after capture), D17 (BUILD on a plain value, ill-typed programs).",
     technique="Coq proof: lockstep simulation relation (value denotation) + differential exec of decompiled source",
     ref="5/C05")
+# entries proposed in notes/Cnn.md (written by the builders of those checks) are picked up verbatim
+import glob, re as _re
+for _f in sorted(glob.glob(os.path.join(V, "notes", "C*.md"))):
+    _t = open(_f).read()
+    for _m in _re.finditer(r'^CLAIMED\["(C\d+)"\] = dict\(', _t, _re.M):
+        _i = _m.end(); _d = 1
+        while _d and _i < len(_t):
+            _c = _t[_i]
+            if _c == '"':
+                _j = _i + 1
+                while _t[_j] != '"' or _t[_j - 1] == "\\":
+                    _j += 1
+                _i = _j
+            elif _c == "(":
+                _d += 1
+            elif _c == ")":
+                _d -= 1
+            _i += 1
+        if _m.group(1) not in CLAIMED:
+            exec(_t[_m.start():_i], {"CLAIMED": CLAIMED, "BASE_NOTE": BASE_NOTE})
 REASON_PENDING = "not claimed yet: model/theorem under construction in this round (see DESIGN.md section 5)"
 ALL = [f"C{i:02d}" for i in range(1, 20)]
 
